@@ -204,3 +204,68 @@ package ice
 //@   ensures[C04,C11] @image result1 == nil ==> seqeq(out(w), L, dbytes(s.data), 0, N)
 //@   ensures[C10,C11] @fields result1 == nil ==> be64(out(w), L + N) == s.footer.numDocs && be32(out(w), L + N + 32) == s.footer.chunkMode && be32(out(w), L + N + 36) == 2
 //@   ensures[C11] @crc result1 == nil ==> be32(out(w), L + N + 40) == crcUpd(0, out(w), L, L + N + 40)
+//@
+//@ // ---------------------------------------------------------------------------
+//@ // C16: collection statistics
+//@ spec isCS(x int) bool = x != 0 && dyntype(x) == typetag("*CollectionStats")
+//@ func (*CollectionStats).TotalDocumentCount
+//@   requires[C16] c != nil
+//@   pure
+//@   ensures[C16] result0 == c.totalDocCount
+//@ func (*CollectionStats).DocumentCount
+//@   requires[C16] c != nil
+//@   pure
+//@   ensures[C16] result0 == c.docCount
+//@ func (*CollectionStats).SumTotalTermFrequency
+//@   requires[C16] c != nil
+//@   pure
+//@   ensures[C16] result0 == c.sumTotalTermFreq
+//@
+//@ func (*CollectionStats).Merge
+//@   safety[C16] nil
+//@   requires[C16] c != nil
+//@   modifies c.totalDocCount, c.docCount, c.sumTotalTermFreq
+//@   ensures[C16] isCS(other) ==> c.totalDocCount == old(c.totalDocCount) + old(cast(other, "*CollectionStats").totalDocCount)
+//@   ensures[C16] isCS(other) ==> c.docCount == old(c.docCount) + old(cast(other, "*CollectionStats").docCount)
+//@   ensures[C16] isCS(other) ==> c.sumTotalTermFreq == old(c.sumTotalTermFreq) + old(cast(other, "*CollectionStats").sumTotalTermFreq)
+//@   ensures[C16] !isCS(other) ==> c.totalDocCount == old(c.totalDocCount) + cstTotal(other) && c.docCount == old(c.docCount) + cstDocs(other) && c.sumTotalTermFreq == old(c.sumTotalTermFreq) + cstSum(other)
+//@
+//@ func (*Segment).CollectionStats
+//@   safety[C16] nil
+//@   requires[C16] s != nil
+//@   let r = cast(result0, "*CollectionStats")
+//@   ensures[C16] result1 == nil && isCS(result0) && fresh(result0)
+//@   ensures[C16] s.fieldsMap[field] > 0 ==> r.totalDocCount == s.footer.numDocs && r.docCount == s.fieldDocs[s.fieldsMap[field] - 1] && r.sumTotalTermFreq == s.fieldFreqs[s.fieldsMap[field] - 1]
+//@   ensures[C16] s.fieldsMap[field] == 0 ==> r.totalDocCount == 0 && r.docCount == 0 && r.sumTotalTermFreq == 0
+//@
+//@ func (*Segment).Count
+//@   requires[C16] s != nil
+//@   pure
+//@   ensures[C03,C16] result0 == s.footer.numDocs
+//@
+//@ // merge: the field's total term frequency grows exactly by the frequencies of the postings
+//@ // that the deletion-aware iterator delivers while the field is merged (ghost total mergedfreq)
+//@ func (*Posting).Frequency
+//@   requires p != nil
+//@   pure
+//@   ensures[C16] result0 == p.freq
+//@
+//@ func (*PostingsIterator).nextAtOrAfter
+//@   ghostset mergedfreq = old(mergedfreq) + ite(result0 != nil, cast(result0, "*Posting").freq, 0)
+//@   ensures[C16] result0 != nil ==> dyntype(result0) == typetag("*Posting") && cast(result0, "*Posting").freq >= 0
+//@   ensures[C16] mergedfreq == old(mergedfreq) + ite(result0 != nil, cast(result0, "*Posting").freq, 0)
+//@
+//@ func (*PostingsIterator).Next
+//@   ensures[C16] result0 != nil ==> dyntype(result0) == typetag("*Posting") && cast(result0, "*Posting").freq >= 0
+//@   ensures[C16] mergedfreq == old(mergedfreq) + ite(result0 != nil, cast(result0, "*Posting").freq, 0)
+//@
+//@ func prepareNewTerm
+//@   ensures[C16] fieldFreqs[uint16(fieldID)] - mergedfreq == old(fieldFreqs[uint16(fieldID)] - mergedfreq)
+//@
+//@ func mergeTermFreqNormLocs
+//@   ensures[C16] mergedfreq >= old(mergedfreq)
+//@
+//@ func persistMergedRestField
+//@   requires[C16] 0 <= fieldID && fieldID <= 65535
+//@   loop 0 invariant[C16] fieldFreqs[uint16(fieldID)] - mergedfreq == old(fieldFreqs[uint16(fieldID)] - mergedfreq)
+//@   ensures[C16] result0 == nil ==> fieldFreqs[uint16(fieldID)] - mergedfreq == old(fieldFreqs[uint16(fieldID)] - mergedfreq)
